@@ -1022,7 +1022,7 @@ pub fn gen_expr(ch: &mut Choices, cfg: &Cfg) -> (OpeningHoursExpression, String)
 pub fn gen_rare_expr(ch: &mut Choices, year_hint: i32) -> String {
     fn rule(ch: &mut Choices, year_hint: i32) -> String {
         let wd = wday_str(ch.pick(&WDAYS));
-        let time = ch.pick(&["", "", " 10:00-12:00", " 20:00-26:00", " 00:00-24:00", " sunrise-sunset"]);
+        let time = ch.pick(&["", "", " 10:00-12:00", " 20:00-26:00", " 00:00-24:00", " sunrise-sunset", " 00:00-48:00", " 00:00-30:00", " 24:00-48:00", " 12:00-12:00"]);
         let near_year = (year_hint + ch.int(0, 3) as i32).clamp(1900, 9999);
         let body = match ch.draw(16) {
             0 => "Feb 29".to_string(),
